@@ -369,6 +369,17 @@ static void init_s3() {
         good("name-length-doubling-attributes-and-pis", "<r" + att + ">" + pis + "<k" + att + "/></r>");
     }
     // values that only look legal after wrapping round 32 or 64 bits
+    // ill-formed UTF-8 that follows 31 / 33 / 40 / 16380 already decoded characters: the decoder defers the error to its next call when it has
+    // produced "enough" characters, and the deferred sequence must still be rejected then
+    for (int pad : {31, 33, 40, 16380}) {
+        std::string ps(pad, 'a'), pn = std::to_string(pad);
+        bad("utf8-above-10FFFF-after-" + pn, "<a>" + ps + "\xF5\x80\x80\x80</a>"); bad("utf8-F7-lead-after-" + pn, "<a>" + ps + "\xF7\xBF\xBF\xBF</a>");
+        bad("utf8-F4-90-after-" + pn, "<a>" + ps + "\xF4\x90\x80\x80</a>"); bad("utf8-surrogate-after-" + pn, "<a>" + ps + "\xED\xA0\x80</a>");
+        bad("utf8-overlong-after-" + pn, "<a>" + ps + "\xC0\xAF</a>"); bad("utf8-lone-continuation-after-" + pn, "<a>" + ps + "\x80</a>");
+        bad("utf8-truncated-4-after-" + pn, "<a>" + ps + "\xF0\x90\x80</a>"); bad("utf8-5-byte-after-" + pn, "<a>" + ps + "\xF8\x88\x80\x80\x80</a>");
+        bad("utf8-above-10FFFF-in-attr-after-" + pn, "<a x='" + ps + "\xF5\x80\x80\x80'/>"); bad("utf8-above-10FFFF-in-comment-after-" + pn, "<a><!--" + ps + "\xF6\x80\x80\x80--></a>");
+        good("utf8-10FFFF-after-" + pn, "<a>" + ps + "\xF4\x8F\xBF\xBF</a>");
+    }
     bad("charref-wraps-32-hex", "<a>&#x100000041;</a>"); bad("charref-wraps-32-dec", "<a>&#4294967361;</a>"); bad("charref-wraps-32-attr", "<a x='&#x100000041;'/>");
     bad("charref-wraps-32-supplementary", "<a>&#x200010000;</a>"); bad("charref-wraps-64-hex", "<a>&#x10000000000000041;</a>"); bad("charref-wraps-64-dec", "<a>&#18446744073709551681;</a>");
     bad("charref-wraps-32-via-entity", "<!DOCTYPE a [<!ENTITY e '&#38;#x100000041;'>]><a>&e;</a>", true);
